@@ -226,6 +226,47 @@ def gen_spec(rng, **over):
     return spec
 
 
+def add_isolation_schedule(spec, rng, with_leak=0.6, n=1):
+    """Time controls that close every link around a junction (cutting it, and possibly a whole
+    sub-tree, off from all sources) and re-open them later; optionally a leak that is active then."""
+    o = spec['options']
+    hyd, dur = o['hydraulic_timestep'], o['duration']
+    links = spec['pipes'] + spec['pumps'] + spec['valves']
+    juncs = [j['name'] for j in spec['junctions']]
+    picked = []
+    for _ in range(n):
+        j = rng.choice(juncs)
+        if any(x['junction'] == j for x in picked) or any(cs['name'].startswith('iso_close_%s_' % j) for cs in spec['controls']):
+            continue
+        inc = [l for l in links if j in (l['start'], l['end'])]
+        if not inc or len(inc) > 4:
+            continue
+        t1 = rng.choice([0, hyd, 2 * hyd, hyd + rng.randint(1, hyd - 1)])
+        t2 = rng.choice([None, t1 + hyd, t1 + 2 * hyd, t1 + hyd + rng.randint(1, hyd - 1)])
+        if t1 >= dur:
+            t1 = hyd
+        some_open_later = rng.random() < 0.3   # re-open only part of the links
+        for k, l in enumerate(inc):
+            if any(cs['name'] in ('iso_close_%s_%s' % (j, l['name']), 'iso_open_%s_%s' % (j, l['name'])) for cs in spec['controls']):
+                continue
+            if t1 == 0 and l['name'].startswith('P') and not l['name'].startswith('PU'):
+                l['status'] = 'CLOSED'
+            else:
+                spec['controls'].append({'kind': 'time', 'name': 'iso_close_%s_%s' % (j, l['name']), 'time': t1,
+                                         'target': l['name'], 'attr': 'status', 'value': 'CLOSED'})
+            if t2 is not None and t2 <= dur and not (some_open_later and k > 0):
+                spec['controls'].append({'kind': 'time', 'name': 'iso_open_%s_%s' % (j, l['name']), 'time': t2,
+                                         'target': l['name'], 'attr': 'status', 'value': 'OPEN'})
+        if rng.random() < with_leak and not any(lk['node'] == j for lk in spec['leaks']):
+            st = rng.choice([0, 0, max(0, t1 - hyd), max(0, t1 - 7)])
+            en = rng.choice([None, None, (t2 or dur) + hyd, t1 + hyd // 2])
+            spec['leaks'].append({'node': j, 'area': _round(10 ** rng.uniform(-4.5, -3), 4), 'cd': 0.75,
+                                  'start': st, 'end': en})
+        picked.append({'junction': j, 'close': t1, 'open': t2})
+    spec['isolation'] = picked
+    return picked
+
+
 def _add_pump(spec, rng, pr, a, b, qd, lift):
     name = 'PU%d' % (len(spec['pumps']) + 1)
     qd = max(qd, 0.001)
